@@ -1,6 +1,7 @@
 import Zc.Proofs.History
 import Zc.Proofs.Packetize
 import Zc.Proofs.Transmit
+import Zc.GenFacts.FnRegistry
 /-! # C03 — the responder answers exactly what is registered, minus what the querier knows
 
 Model: `Zc.Registry` (`_services/registry.py`, with the D3 repair), `Zc.Svc` (the record builders and memo
@@ -409,5 +410,56 @@ example :
     ∧ (RHost.run id 4500 [.api (.register exX), .api (.query qTxtSrvX), .transmit,
         .api (.update { exX with port := 81 }), .api (.query qTxtSrvX), .transmit]).2.length = 2
     ∧ noReplyQueuedForChanged id 4500 {} d20Ops = false := by decide
+
+/-! ## Tie: the source of `_services/registry.py`, translated statement by statement on every run
+
+`Zc.GenFn.Registry` is regenerated from the *bodies* of all methods of `ServiceRegistry` (`tools/gen_fn.py`);
+`GenFacts/FnRegistry.lean` proves, method by method and under the representation invariant `RInv` (which every mutator
+preserves), that the hand-written `Registry` model above computes what those bodies compute.  Hence the registry
+theorems hold of the translated source itself, and an edit of a method body breaks a named lemma of `FnRegistry` at
+stage P. -/
+section Tie
+open Zc.Py Zc.GenFn.Registry Zc.GenFacts.FnRegistry
+
+/-- **The model's registry is the translated code's, along every history of API calls.**  After any sequence of
+`async_add` / `async_remove` / `async_update` calls on a fresh `ServiceRegistry` (a call that raises leaves the registry as it
+was) the four fields of the generated object are those of `Registry.run` on the same calls, and the dicts are well formed. -/
+theorem C03_registry_is_source (ops : List ROp) :
+    absR (gRun lower ops) = Registry.run lower ettl (ops.map (toRegOp lower)) ∧ RInv lower (gRun lower ops) :=
+  gRun_eq lower ettl ops
+
+/-- **D3 for the translated code: no empty bucket is ever advertised.**  After any history of API calls, every type the
+generated `async_get_types` enumerates has a service that the generated `async_get_service_infos` returns. -/
+theorem C03_no_empty_bucket_source (ops : List ROp) :
+    ∀ t ∈ (gRun lower ops).async_get_types, ∃ s ∈ (gRun lower ops).async_get_service_infos, lower s.type = t := by
+  intro t ht
+  have h := (gRun_eq lower 0 ops).1
+  rw [async_get_types_eq, h] at ht
+  rw [async_get_service_infos_eq, h]
+  obtain ⟨s, hs, hst⟩ := (C03_no_empty_bucket lower 0 (ops.map (toRegOp lower))).1 t ht
+  rw [← (C03_registry_refines lower 0 (ops.map (toRegOp lower))).2] at hs
+  obtain ⟨s0, hs0, rfl⟩ := List.mem_map.1 hs
+  exact ⟨s0, hs0, hst⟩
+
+/-- **The look-ups of the translated code** return exactly the registered services of that type / host, in registration
+order, and never raise, after any history. -/
+theorem C03_lookups_source (ops : List ROp) (k : String) :
+    (gRun lower ops).async_get_infos_type k = .ok ((gRun lower ops).async_get_service_infos.filter (fun s => lower s.type = k))
+    ∧ (gRun lower ops).async_get_infos_server k = .ok ((gRun lower ops).async_get_service_infos.filter (fun s => lower s.server = k)) := by
+  have h := gRun_eq lower 0 ops
+  have hl := C03_lookups lower 0 (ops.map (toRegOp lower)) k
+  rw [async_get_infos_type_eq lower _ k h.2, async_get_infos_server_eq lower _ k h.2, async_get_service_infos_eq, h.1]
+  exact ⟨hl.1, hl.2.1⟩
+
+/-- non-vacuity: register two services of one type, unregister both — the type bucket is gone (D3), the generated look-up
+is empty -/
+example :
+    (gRun id [.add exX, .add { exX with name := "z._a._tcp.local." }, .remove [exX], .remove [{ exX with name := "z._a._tcp.local." }]]).async_get_types = []
+    ∧ ((gRun id [.add exX, .add { exX with name := "z._a._tcp.local." }, .remove [exX]]).async_get_infos_type "_a._tcp.local.").toOption
+        = some [{ exX with name := "z._a._tcp.local." }]
+    ∧ (gRun id [.add exX, .add exX, .remove [exX]]).has_entries = false := by
+  decide
+
+end Tie
 
 end Zc
